@@ -976,6 +976,7 @@ func (c *Ctx) modeArgRule(id string) {
 			}
 		})
 	}
+	roProver := c.NewProver()
 	// functions to check: parseModes and the state-package functions it passes a []string on to
 	todo := []*ssa.Function{fn}
 	for _, cs := range CallSites(fn) {
@@ -990,14 +991,28 @@ func (c *Ctx) modeArgRule(id string) {
 			}
 		}
 	}
+	// ... and the closures in which it does its work on a captured argument list (a per-character callback)
+	for _, an := range fn.AnonFuncs {
+		todo = append(todo, an)
+	}
 	n := 0
 	for _, f := range todo {
 		r.Funcs[c.FuncKey(f)] = true
 		// candidate argument lists: slice-typed parameters and loop variables fed by them
 		var lists []ssa.Value
+		cellList := map[ssa.Value]bool{}
 		for _, pr := range f.Params {
 			if sl, ok := pr.Type().Underlying().(*types.Slice); ok && isStringType(sl.Elem()) {
 				lists = append(lists, pr)
+			}
+		}
+		for _, fv := range f.FreeVars {
+			// a captured variable holding the list: *[]string
+			if pt, ok := fv.Type().Underlying().(*types.Pointer); ok {
+				if sl, ok := pt.Elem().Underlying().(*types.Slice); ok && isStringType(sl.Elem()) {
+					lists = append(lists, fv)
+					cellList[fv] = true
+				}
 			}
 		}
 		funcInstrs(f, func(in ssa.Instruction) {
@@ -1012,7 +1027,29 @@ func (c *Ctx) modeArgRule(id string) {
 			if ph, ok := args.(*ssa.Phi); ok {
 				hdr = ph.Block().Instrs[0]
 			}
+			isCell := cellList[args]
+			// isList: v denotes the current argument list
+			isList := func(v ssa.Value) bool {
+				if !isCell {
+					return v == args
+				}
+				u, ok := v.(*ssa.UnOp)
+				return ok && u.Op == token.MUL && u.X == args
+			}
 			isAdvance := func(in ssa.Instruction) bool {
+				if isCell {
+					// *cell = (*cell)[1:]
+					st, ok := in.(*ssa.Store)
+					if !ok || st.Addr != args {
+						return false
+					}
+					sl, ok := st.Val.(*ssa.Slice)
+					if !ok || !isList(sl.X) || sl.High != nil {
+						return false
+					}
+					k, okc := constInt(sl.Low)
+					return okc && k == 1
+				}
 				s, ok := in.(*ssa.Slice)
 				if !ok || s.X != args || s.High != nil {
 					return false
@@ -1044,7 +1081,7 @@ func (c *Ctx) modeArgRule(id string) {
 					if cal := cs.Call.StaticCallee(); cal != nil && writers[cal] && cal != f {
 						// a helper that writes state and is NOT itself handed the list (otherwise it is checked on its own)
 						for _, a := range cs.Call.Args {
-							if a == args {
+							if isList(a) {
 								return false
 							}
 						}
@@ -1056,7 +1093,7 @@ func (c *Ctx) modeArgRule(id string) {
 			end := func(x ssa.Instruction) bool { return isAdvance(x) || (hdr != nil && x == hdr) }
 			funcInstrs(f, func(in ssa.Instruction) {
 				ia, ok := in.(*ssa.IndexAddr)
-				if !ok || ia.X != args {
+				if !ok || !isList(ia.X) {
 					return
 				}
 				if k, okc := constInt(ia.Index); !okc || k != 0 {
@@ -1090,6 +1127,11 @@ func (c *Ctx) modeArgRule(id string) {
 							nme := calleeName(&t.Call)
 							if _, isB := t.Call.Value.(*ssa.Builtin); !isB && !strings.HasPrefix(nme, modPath+"/logging.") && !t.Call.IsInvoke() {
 								consuming = true
+								// a module function that only looks something up (no store, no map update, nothing
+								// handed on) does not use the argument up
+								if cal := t.Call.StaticCallee(); cal != nil && c.InModuleFn(cal) && roProver.readOnlyFn(cal) {
+									consuming = false
+								}
 							}
 						case *ssa.Store:
 							if _, local := t.Addr.(*ssa.Alloc); !local && t.Val == ssa.Value(ld) {
@@ -1246,6 +1288,13 @@ func (c *Ctx) matchArg(v ssa.Value, spec argSpec, line ssa.Value) (bool, string)
 					return true, ""
 				}
 			}
+			if call, ok := base.(*ssa.Call); ok {
+				if m, arg, isL := c.lookupHelper(call); isL && m == "GetNick" {
+					if i, ok := c.lineArgIndex(arg, line); ok && i == spec.idx {
+						return true, ""
+					}
+				}
+			}
 		}
 		if i, ok := c.lineArgIndex(v, line); ok && i == spec.idx {
 			return true, ""
@@ -1253,6 +1302,56 @@ func (c *Ctx) matchArg(v ssa.Value, spec argSpec, line ssa.Value) (bool, string)
 		return false, fmt.Sprintf("want the nick of GetNick(line.Args[%d])", spec.idx)
 	}
 	return false, "unknown spec"
+}
+
+// lookupHelper: call is a call of an unexported client function every return
+// of which hands back what one read-only tracker query on one of its
+// parameters answered (GetChannel(name), GetNick(name)). Result: the query's
+// method name and the argument standing for that parameter at this call.
+func (c *Ctx) lookupHelper(call *ssa.Call) (string, ssa.Value, bool) {
+	cal := call.Call.StaticCallee()
+	if cal == nil || call.Call.IsInvoke() || cal.Package() != c.Client || !c.InModuleFn(cal) || cal.Object() == nil || cal.Object().Exported() || cal.Blocks == nil || cal.Signature.Results().Len() != 1 {
+		return "", nil, false
+	}
+	var q *ssa.Call
+	nq, okAll, nRet := 0, true, 0
+	funcInstrs(cal, func(in ssa.Instruction) {
+		if tc, ok := in.(*ssa.Call); ok && c.isTrackerCall(tc) {
+			if !trackerReadOnly[tc.Call.Method.Name()] {
+				okAll = false
+			}
+			q = tc
+			nq++
+		}
+	})
+	if nq != 1 || !okAll || len(q.Call.Args) != 1 {
+		return "", nil, false
+	}
+	pr, isP := q.Call.Args[0].(*ssa.Parameter)
+	if !isP {
+		return "", nil, false
+	}
+	funcInstrs(cal, func(in ssa.Instruction) {
+		rt, ok := in.(*ssa.Return)
+		if !ok {
+			return
+		}
+		nRet++
+		for _, o := range c.Origins(retVal(rt, 0)) {
+			if o != ssa.Value(q) && !isNilConst(o) {
+				okAll = false
+			}
+		}
+	})
+	if !okAll || nRet == 0 {
+		return "", nil, false
+	}
+	for i, p2 := range cal.Params {
+		if p2 == pr && i < len(call.Call.Args) {
+			return q.Call.Method.Name(), call.Call.Args[i], true
+		}
+	}
+	return "", nil, false
 }
 
 // guardHelper: cal is an unexported client function returning one bool whose
@@ -1330,6 +1429,11 @@ func (c *Ctx) allowedGuard(cd Cond, line ssa.Value) bool {
 				}
 				if call, ok := other.(*ssa.Call); ok && c.isTrackerCall(call) && trackerReadOnly[call.Call.Method.Name()] {
 					return true
+				}
+				if call, ok := other.(*ssa.Call); ok {
+					if _, _, isL := c.lookupHelper(call); isL {
+						return true
+					}
 				}
 			}
 		}
@@ -1420,6 +1524,26 @@ func runC13(c *Ctx) {
 			nk := dc.Args[0]
 			okAssoc, bad := AllPathsPass(dc.Anchor, false, func(in ssa.Instruction) bool { return isAssoc(in, 1, nk) })
 			why := "Associate of the new nick on every path"
+			if !okAssoc && dc.Site.Parent() != h {
+				// creation and association both live in a per-name helper: judge them in that frame
+				hf := dc.Site.Parent()
+				local := dc.Site.Common().Args[0]
+				inHelper := func(in ssa.Instruction) bool {
+					for _, as := range assoc {
+						if as.Site == in && as.Site.Parent() == hf && len(as.Site.Common().Args) > 1 && as.Site.Common().Args[1] == local {
+							return true
+						}
+					}
+					return false
+				}
+				okAssoc, bad = AllPathsPass(dc.Site, false, inHelper)
+				if !okAssoc {
+					okAssoc = c.onlySkippedByIsOn(dc.Site, local)
+				}
+				if okAssoc {
+					why = "Associate of the new nick on every path of the per-name helper " + c.FuncKey(hf)
+				}
+			}
 			if !okAssoc {
 				// accept paths that skip Associate only through the IsOn-true edge (already associated)
 				if cs, isCS := dc.Anchor.(ssa.CallInstruction); isCS {
@@ -1556,18 +1680,69 @@ func (c *Ctx) namesRuleAs(rule string, h *ssa.Function) {
 	want := map[byte]string{'~': "+q", '&': "+a", '@': "+o", '%': "+h", '+': "+v"}
 	got := map[string]bool{}
 	nAssoc := 0
-	for _, cs := range CallSites(h) {
-		if !c.isTrackerCall(cs) {
-			continue
+	type namedCall struct {
+		name string
+		dc   deepCall
+	}
+	var calls []namedCall
+	for _, nm := range []string{"Associate", "ChannelModes"} {
+		for _, dc := range c.deepTrackerCalls(h, nm) {
+			calls = append(calls, namedCall{nm, dc})
 		}
-		switch cs.Common().Method.Name() {
+	}
+	for _, nc := range calls {
+		cs := nc.dc.Site
+		conds := append(append([]Cond{}, CondsAt(nc.dc.Anchor.Block())...), nc.dc.Inner...)
+		switch nc.name {
 		case "Associate":
 			nAssoc++
-			ok := c.LoopDepth(cs.Block()) >= 1
-			r.Add(rule, "353:associate", c.InstrPos(cs), c.FuncKey(h), "each listed name is associated with the channel", ok, "inside the loop over names")
+			ok := c.LoopDepth(nc.dc.Anchor.Block()) >= 1
+			why := "inside the loop over names"
+			// in a per-name helper only the empty entry and "already on the channel" may skip it
+			for _, cd := range nc.dc.Inner {
+				cd2 := unwrapNot(cd)
+				allowed := false
+				if ex, isE := cd2.V.(*ssa.Extract); isE {
+					if tc, isC := ex.Tuple.(*ssa.Call); isC && c.isTrackerCall(tc) && tc.Call.Method.Name() == "IsOn" {
+						allowed = true
+					}
+				}
+				if bo, isB := cd2.V.(*ssa.BinOp); isB {
+					if s0, okS := constString(bo.Y); okS && s0 == "" {
+						allowed = true
+					}
+					if s0, okS := constString(bo.X); okS && s0 == "" {
+						allowed = true
+					}
+				}
+				if !allowed {
+					ok, why = false, "in the per-name helper the association also depends on "+cd2.V.String()+" at "+c.InstrPos(cd.If)
+				}
+			}
+			// in the handler itself: argument count, known channel, the loop over the names, the empty entry and the
+			// prefix byte - nothing else may keep a listed name from being associated on this very line
+			for _, cd := range CondsAt(nc.dc.Anchor.Block()) {
+				cd2 := unwrapNot(cd)
+				allowed := c.allowedGuard(cd, line) || (cd.If != nil && c.IsLoopHeader(cd.If.Block()))
+				if bo, isB := cd2.V.(*ssa.BinOp); isB && !allowed {
+					if s0, okS := constString(bo.Y); okS && s0 == "" {
+						allowed = true
+					}
+					if s0, okS := constString(bo.X); okS && s0 == "" {
+						allowed = true
+					}
+					if isByte(bo.X.Type()) || isByte(bo.Y.Type()) {
+						allowed = true
+					}
+				}
+				if !allowed {
+					ok, why = false, "whether a listed name is associated also depends on "+cd2.V.String()+" at "+c.InstrPos(cd.If)
+				}
+			}
+			r.Add(rule, "353:associate", c.InstrPos(cs), c.FuncKey(h), "each listed name is associated with the channel", ok, why)
 		case "ChannelModes":
 			// the privilege shown by NAMES is recorded for every listed name: not only for names first seen on this line
-			for _, cd := range CondsAt(cs.Block()) {
+			for _, cd := range conds {
 				cd2 := unwrapNot(cd)
 				if ex, ok := cd2.V.(*ssa.Extract); ok {
 					if tc, ok := ex.Tuple.(*ssa.Call); ok && c.isTrackerCall(tc) && tc.Call.Method.Name() == "IsOn" {
@@ -1584,16 +1759,21 @@ func (c *Ctx) namesRuleAs(rule string, h *ssa.Function) {
 					}
 				}
 			}
-			if hc, ok := cs.Common().Args[1].(*ssa.Call); ok && !hc.Call.IsInvoke() && hc.Call.StaticCallee() != nil && c.InModuleFn(hc.Call.StaticCallee()) {
+			modeArg := cs.Common().Args[1]
+			resIdx := 0
+			if ex, isE := modeArg.(*ssa.Extract); isE {
+				modeArg, resIdx = ex.Tuple, ex.Index
+			}
+			if hc, ok := modeArg.(*ssa.Call); ok && !hc.Call.IsInvoke() && hc.Call.StaticCallee() != nil && c.InModuleFn(hc.Call.StaticCallee()) {
 				// prefix -> mode mapping computed by a helper: read it from the helper's returns
 				hf := hc.Call.StaticCallee()
 				r.Funcs[c.FuncKey(hf)] = true
 				funcInstrs(hf, func(in ssa.Instruction) {
 					rt, isR := in.(*ssa.Return)
-					if !isR || len(rt.Results) != 1 {
+					if !isR || resIdx >= len(rt.Results) {
 						return
 					}
-					m, isC := constString(retVal(rt, 0))
+					m, isC := constString(retVal(rt, resIdx))
 					if !isC || m == "" {
 						return
 					}
@@ -1613,7 +1793,7 @@ func (c *Ctx) namesRuleAs(rule string, h *ssa.Function) {
 			}
 			if m, ok := constString(cs.Common().Args[1]); ok {
 				// which prefix guards it?
-				for _, cd := range CondsAt(cs.Block()) {
+				for _, cd := range conds {
 					cd = unwrapNot(cd)
 					if bo, ok := cd.V.(*ssa.BinOp); ok && bo.Op == token.EQL && cd.True {
 						if k, ok := constInt(bo.Y); ok && k < 256 {
@@ -2147,6 +2327,7 @@ func (c *Ctx) modeDecisionsRule(rule string) {
 				continue
 			}
 			seenPhi := map[*ssa.Phi]bool{}
+			var helperResult func(call *ssa.Call, idx int, d int) (bool, string)
 			var okV func(v ssa.Value, d int) (bool, string)
 			okV = func(v ssa.Value, d int) (bool, string) {
 				if d > 12 {
@@ -2208,16 +2389,41 @@ func (c *Ctx) modeDecisionsRule(rule string) {
 					if b, isB := t.Call.Value.(*ssa.Builtin); isB && b.Name() == "len" {
 						return true, ""
 					}
+					if !isStringType(t.Type()) {
+						return helperResult(t, 0, d)
+					}
 					return false, "depends on the result of " + calleeName(&t.Call)
 				case *ssa.Extract:
 					if lk, isL := t.Tuple.(*ssa.Lookup); isL && lk.CommaOk && t.Index == 1 {
 						return true, ""
+					}
+					if call, isC := t.Tuple.(*ssa.Call); isC {
+						return helperResult(call, t.Index, d)
 					}
 					return false, "depends on " + v.String()
 				case *ssa.Convert:
 					return okV(t.X, d+1)
 				}
 				return false, "depends on " + v.String()
+			}
+			// helperResult: a boolean answer of a state-package helper is acceptable when every value the helper
+			// returns there is (the helper's own decisions are judged by this rule as well)
+			helperResult = func(call *ssa.Call, idx int, d int) (bool, string) {
+				cal := call.Call.StaticCallee()
+				if cal == nil || call.Call.IsInvoke() || cal.Package() != c.State || !c.InModuleFn(cal) || cal.Blocks == nil {
+					return false, "depends on the result of " + calleeName(&call.Call)
+				}
+				okAll, why := true, ""
+				funcInstrs(cal, func(in ssa.Instruction) {
+					rt, isR := in.(*ssa.Return)
+					if !isR || idx >= len(rt.Results) {
+						return
+					}
+					if ok2, w := okV(retVal(rt, idx), d+1); !ok2 {
+						okAll, why = false, w
+					}
+				})
+				return okAll, why
 			}
 			funcInstrs(f, func(in ssa.Instruction) {
 				iff, ok := in.(*ssa.If)
